@@ -210,6 +210,19 @@ def make_history(rng, files):
             new = rng.choice([orig, G.split_keep(rng.choice(hist))])
         elif r < .30:
             new = _edit_tail(cur, rng)
+        elif r < .42 and cur:
+            # the most ordinary edit: one more statement in the block that ends here (same indentation as the line before),
+            # or one level deeper after a line ending in a colon
+            from ..gen.structured import ONELINERS
+            k = rng.randrange(len(cur))
+            prev = cur[k]
+            ind = prev[:len(prev) - len(prev.lstrip(' \t'))]
+            if prev.rstrip().endswith(':') and rng.random() < .6:
+                ind += '    '
+            nl = '\n' if not prev.endswith(('\r\n', '\r')) else ('\r\n' if prev.endswith('\r\n') else '\r')
+            if not prev.endswith(('\n', '\r')):
+                cur = cur[:k] + [prev + nl] + cur[k + 1:]
+            new = cur[:k + 1] + [ind + rng.choice(ONELINERS) + nl for _ in range(rng.choice([1, 1, 2]))] + cur[k + 1:]
         else:
             new = G.mutate_lines(cur, rng)
         hist.append(''.join(new))
